@@ -17,6 +17,9 @@ EXHAUSTIVE_THOROUGH = [
     "P:0:0 R:0 P:1:0 R:0 D / D D",
 ]
 HAND = [
+    # the disk thread runs its event loop (process_callbacks forever)
+    ("P:0:0 R:0 D / LOOP", ["000" + "1111" + "0" * 6 + "1" * 10 + "0" * 10, "0001111" + "01" * 20, "01" * 40]),
+    ("P:0:0 P:1:0 D R:0 P:2:1 D R:1 D / LOOP", ["01" * 80, "0011" * 40, "000111" * 25]),
     ("P:0:0 R:0 D / D", ["000" + "1111" + "0" * 6 + "1" * 10 + "0" * 10, "0001111" + "01" * 20, "000" + "1" * 20 + "0" * 20]),
     ("P:0:1 P:1:1 D R:1 D / D D", ["000" + "1" * 12 + "0" * 12 + "1" * 8 + "0" * 8, "01" * 40]),
     ("P:0:0 P:1:0 P:2:1 R:0 D D / D D D", ["01" * 60, "0011" * 30, "000111" * 20, "0" * 9 + "1" * 30 + "0" * 30]),
@@ -38,7 +41,7 @@ def rand_program(r):
         else:
             main.append("D")
     main.append("D")
-    disk = ["D"] * r.choice([1, 2, 3, 4])
+    disk = ["LOOP"] if r.random() < 0.35 else ["D"] * r.choice([1, 2, 3, 4])
     return " ".join(main) + " / " + " ".join(disk)
 
 
@@ -75,5 +78,5 @@ def gen(seed, tier):
     stats["random_cases"] = nprog * nsched
     enum = [(p, 15000) for p in EXHAUSTIVE_QUICK]
     if tier != "quick":
-        enum += [(p, 60000) for p in EXHAUSTIVE_THOROUGH]
+        enum += [(p, 30000) for p in EXHAUSTIVE_THOROUGH]
     return cases, stats, enum
